@@ -401,12 +401,25 @@ class HGen:
         rng = self.rng
         out = []
 
-        def variant(kind, mutate, bases=None, expect=True):
+        def variant(kind, mutate, bases=None, expect=True, pre=(), post=()):
             name = self.fresh("F")
             src = self.simple_src(name, bases or [base_name])
             mutate(src)
             out.append({"op": "define", "src": src, "fault": kind, "expect_raise": expect,
-                        "control": self.control_of(src, kind)})
+                        "control": self.control_of(src, kind), "pre": list(pre), "post": list(post)})
+
+        def chain(first_bases, depth, attr=None):
+            """define steps of `depth - 1` intermediate classes (the first on `first_bases`, optionally
+            carrying `attr`); returns (steps, bases for the class at the bottom)"""
+            steps, bases = [], list(first_bases)
+            for lvl in range(depth - 1):
+                nm = self.fresh("P")
+                s = self.simple_src(nm, bases)
+                if attr is not None and lvl == 0:
+                    s["entries"].append(attr)
+                steps.append({"op": "define", "src": s})
+                bases = [nm]
+            return steps, bases
 
         fname = "flt"
         d, v = rng.choice(self.INVALID_TRUTHY)
@@ -470,6 +483,34 @@ class HGen:
         an, ak = rng.choice([("_foo", "bool"), ("_foo", "list"), ("_bar", "dict"), ("plain_attr", "bool"),
                              ("_x", "list"), ("other_attr", "dict")])
         variant("unknown-attr", lambda s: s["entries"].append([an, {"e": "attr", "a": ak}]), expect=guards["consts"])
+        # the unknown name already exists somewhere above the class (depth 1..3): on a plain mixin, on an
+        # ancestor Structure defined while the guard was off, or as an internal name of Structure itself
+        for depth in (1, rng.choice([2, 3])):
+            mx, mn = self.fresh("Mx"), rng.choice(["_labels", "_tags", "_debug", "plain_flag", "_opts"])
+            mk = rng.choice(["bool", "list", "dict"])
+            first = [mx, base_name] if rng.random() < 0.7 else [base_name, mx]
+            steps_, bases_ = chain(first, depth)
+            variant(f"unknown-attr:on-mixin:depth{depth}",
+                    lambda s, mn=mn: s["entries"].append([mn, {"e": "attr", "a": rng.choice(["bool", "list", "dict"])}]),
+                    bases=bases_, expect=guards["consts"],
+                    pre=[{"op": "mixin", "name": mx, "attrs": [[mn, mk]]}] + steps_)
+        depth = rng.choice([1, 2, 3])
+        ln, lk = rng.choice(["_debug", "_legacy_flag", "_opts", "_cache"]), rng.choice(["bool", "list", "dict"])
+        legacy = self.fresh("L")
+        lsrc = self.simple_src(legacy, [base_name])
+        lsrc["entries"].append([ln, {"e": "attr", "a": lk}])
+        steps_, bases_ = chain([legacy], depth)
+        variant(f"unknown-attr:on-guard-off-ancestor:depth{depth}",
+                lambda s: s["entries"].append([ln, {"e": "attr", "a": rng.choice(["bool", "list", "dict"])}]),
+                bases=bases_, expect=True,
+                pre=[{"op": "guards", "consts": False, "nontypedpy": guards["nontypedpy"]},
+                     {"op": "define", "src": lsrc}] + steps_
+                    + [{"op": "guards", "consts": True, "nontypedpy": guards["nontypedpy"]}],
+                post=[{"op": "guards", "consts": guards["consts"], "nontypedpy": guards["nontypedpy"]}])
+        iname = rng.choice(["_additional_serialization", "_is_wrapper", "_set_defaults"])
+        variant("unknown-attr:internal-name",
+                lambda s: s["entries"].append([iname, {"e": "attr", "a": rng.choice(["bool", "list", "dict"])}]),
+                bases=[rng.choice([base_name, "Structure"])], expect=guards["consts"])
         bn, bk = rng.choice([("x", "bareType"), ("x", "generic"), ("_x", "bareType"), ("some_type", "generic")])
         variant("bare-type", lambda s: s["entries"].append([bn, {"e": "attr", "a": bk}]), expect=guards["nontypedpy"])
         un = rng.choice(["x", "some_type", "u1"])
@@ -559,8 +600,10 @@ def gen_define_cases(rng, tier, n):
             faults = hg.fault_variants(base, visible.get(base, set()), req_guess, sealed, guards)
             fsteps = list(steps) + [sealed_step]
             for f in faults:
+                fsteps.extend(f.get("pre", []))
                 fsteps.append(f["control"])
-                fsteps.append({k: v for k, v in f.items() if k != "control"})
+                fsteps.append({k: v for k, v in f.items() if k not in ("control", "pre", "post")})
+                fsteps.extend(f.get("post", []))
             fsteps.append({"op": "fieldclass", "name": "ImmStr", "bases": ["ImmutableField", "String"]})
             fsteps.append({"op": "fieldclass", "name": "SubImmStr", "bases": ["ImmStr"], "fault": "subclass-immutable-field",
                            "expect_raise": True})
@@ -1066,7 +1109,13 @@ def run_impl(case):
 def run_step(st, env, vg):
     op = st["op"]
     if op == "mixin":
-        env.classes[st["name"]] = type(st["name"], (), {"hello": lambda self: 1})
+        body = {"hello": lambda self: 1}
+        body.update({n: copy.copy(ATTR_VALUES[k]) for n, k in st.get("attrs", [])})
+        env.classes[st["name"]] = type(st["name"], (), body)
+        return {"ok": None}
+    if op == "guards":
+        TypedPyDefaults.block_unknown_consts = st["consts"]
+        Structure.set_block_non_typedpy_field_assignment(st["nontypedpy"])
         return {"ok": None}
     if op == "define":
         src = st["src"]
